@@ -18,7 +18,9 @@ TRUSTED = [
     "parquet statistics (num-rows) are taken as given; only the selection logic of _get_lengths is modelled",
 ]
 PARTIAL = [
-    "C06_partitions is proven for strictly ascending selections (the code reports unknown divisions otherwise: C06_partitions_unknown)",
+    "C06_partitions / C06_fusedio are proven for strictly ascending selections (Partitions/PartitionsFiltered report unknown divisions otherwise: C06_partitions_unknown; FusedIO does not: C06_fusedio_counterexample)",
+    "C06_len_frompandas: _get_lengths is proven for unfiltered and strictly ascending _partitions; counterexample theorems for repeated/reordered selections and for both parquet readers",
+    "C06_size: proven for frames with at least one column (counterexample: zero columns)",
     "indexed Merge / interleaved Concat: proven that unique(merge_sorted(...)) is sorted, duplicate-free and contains both inputs' divisions; truthfulness of the aligned partitions is C13's repartition theorem",
     "C06_len_elemwise_partial: Len/Lengths push-down picks the first dependency with the most partitions; sound when that dependency is row-aligned (not for a leading scalar operand of a single-partition frame: counterexample theorem)",
 ]
@@ -304,6 +306,7 @@ DED_OPS = {
     "groupby_sum": lambda x, k: x.groupby("b").v.sum(),
     "dropdup": lambda x, k: x.drop_duplicates(subset=["b"]),
     "value_counts": lambda x, k: x.b.value_counts(),
+    "empty_cols": lambda x, k: x[[]],
 }
 
 
@@ -426,8 +429,14 @@ def _rowcount_sig(q, what):
             sel = shape if shape in ("repeated", "reordered") else "ascending"
             break
     spine = [x for x in _plan_shape(q).split("/") if x != "Partitions"]
-    return {"check": "rowcount", "what": what, "reader": spine[-1], "selection": sel,
-            "through": "/".join(spine[:-1]) or "-"}
+    through = "/".join(spine[:-1]) or "-"
+    if "/Filter" in through and spine[0] in ("Add", "Sub", "Mul"):
+        # Len pushed through a binary operation whose operands were filtered differently
+        return {"check": "rowcount", "what": what, "mechanism": "len-through-binop-of-filtered-operands"}
+    sig = {"check": "rowcount", "what": what, "reader": spine[-1], "selection": sel}
+    if sel == "none":
+        sig["through"] = through
+    return sig
 
 
 def _plan_shape(q):
@@ -507,6 +516,7 @@ MUST_RUN = [
     {"kind": "rowcount", "source": "read_parquet_arrow", "chain": "col_a", "P": [1, 2]},
     {"kind": "rowcount", "source": "from_pandas", "chain": "binop_filters", "P": None},        # Len(x + y) = Len(x)
     {"kind": "dedicated", "index": "int", "npartitions": 4, "op": "set_index_parts_rev"},      # _SetIndexPost culling
+    {"kind": "dedicated", "index": "int", "npartitions": 2, "op": "empty_cols"},               # Size of a frame without columns
 ]
 
 
